@@ -12,8 +12,10 @@
 Scenario (JSON):
   {"mode": "regular"|"swp"|"transparent"|"reverse_https"|"reverse_tls", "rhost": host of the reverse spec,
    "eager_tasks": bool, "confdir": "default"|"custom",
-   "opts": {"ssl_insecure", "http2", "connection_strategy", "trust": "file"|"dir"|"both"|"certifi",
-            "trusted": ["A"], "upstream_cert", "store_cap"},
+   "opts": {"ssl_insecure", "http2", "connection_strategy",
+            "trust": "file"|"dir"|"both"|"default" (neither configured: sim-owned default bundle with roots P, Q),
+            "trusted": ["A"] (roots in the configured file/dir; "trusted_file"/"trusted_dir" override per source),
+            "upstream_cert", "store_cap"},
    "origins": [{"host", "port", "cert": pki spec, "alpn": [..]|None, "tls12": bool, "delay": s,
                 "refuse": bool, "cuts": [...], "gaps": [...], "seg": n, "force_offers": [..]|None}],
    "flows": [{"start": s, "host", "port", "sni": str|None, "verify": name checked by the client,
@@ -579,13 +581,22 @@ def run(sc: dict, keep_log: bool = False) -> Obs:
         "connection_strategy": opts_in.get("connection_strategy", "eager"),
         "upstream_cert": bool(opts_in.get("upstream_cert", True)),
     }
+    # trust anchors: a configured CA file and/or hashed CA directory are the ONLY anchors; with neither,
+    # the default bundle (certifi.where(), replaced by a sim-owned bundle holding the public sim roots)
     trust = opts_in.get("trust", "file")
+    anchors: list = []
     if trust in ("file", "both"):
-        options["ssl_verify_upstream_trusted_ca"] = pki_a.trust_file(trusted)
+        tf = list(opts_in.get("trusted_file", trusted))
+        options["ssl_verify_upstream_trusted_ca"] = pki_a.trust_file(tf)
+        anchors += tf
     if trust in ("dir", "both"):
-        options["ssl_verify_upstream_trusted_confdir"] = pki_a.trust_dir(trusted)
-    if trust == "certifi":
-        obs.trusted = []
+        td = list(opts_in.get("trusted_dir", trusted))
+        options["ssl_verify_upstream_trusted_confdir"] = pki_a.trust_dir(td)
+        anchors += td
+    if trust in ("certifi", "default"):
+        anchors = list(pki_a.PUBLIC_ROOTS)
+    obs.trusted = sorted(set(anchors))
+    bundle = pki_a.public_bundle()
     confdir = None
     if sc.get("confdir") == "custom":
         confdir, obs.cafile = custom_confdir()
@@ -880,12 +891,22 @@ def run(sc: dict, keep_log: bool = False) -> Obs:
     cap = opts_in.get("store_cap")
     if cap:
         mcerts.CertStore.STORE_CAP = int(cap)
+    # "the default public CA bundle" is a sim-owned file: mitmproxy.net.tls calls certifi.where() at context
+    # creation time.  The path is the same string for every run of a day and the world clears the lru_cache
+    # of create_proxy_server_context at start, so no context leaks from one run into the next.
+    import certifi as _certifi
+    from mitmproxy.net import tls as _net_tls
+    assert _net_tls.certifi is _certifi
+    old_where = _certifi.where
+    _certifi.where = lambda: bundle
     try:
         _, w = W.run_world(body, eager=bool(sc.get("eager_tasks")), seed=int(sc.get("seed", 0)), options=options,
                            modes=[mode_string(sc)], confdir=confdir, keep_log=keep_log)
     finally:
+        _certifi.where = old_where
         x509.random_serial_number = old_serial
         mcerts.CertStore.STORE_CAP = old_cap
+        _net_tls.create_proxy_server_context.cache_clear()
     obs.world = w
     for r in obs.flows:
         r.pop("conn", None)
